@@ -7,11 +7,22 @@ from plans import PLANS
 
 TEXT = {
  "C01": ("3.C01", "TLC enumerates every document of a bounded universe (all payload-width combinations of up to W siblings, two nesting levels, 28 boundary atoms) and the seeded driver adds deep/wide documents with full 64-bit numbers and all-plane strings; for each the real encoder's bytes must equal spec/Jsonb.tla Encode (the README layout transcribed) byte for byte and both decoders must return Canon(d) and re-encode identically. The spec's own laws (Decode(Encode(d)) = Canon(d), strict canonicity, shortest number form) are TLC invariants on the same universe."),
+ "C02": ("3.C02", "TLC enumerates byte strings from the lexer and parser automata of spec/JsonText.tla (every <=L-character string over the number and string alphabets, every single-token deletion/replacement/insertion and byte-prefix of 9 well-formed documents, surrogate escapes alone/paired/mis-paired in both bracket forms, integer/float classification at 2^63/2^64 and the ends of the double range, token soups); the real parser must accept exactly what the relaxed grammar accepts, with the same value (integers exact; floats judged by exact big-number arithmetic in spec/BigNat.tla), and never panic. Law checked by TLC on every text: RFC-strict acceptance implies relaxed acceptance with the same value, white-space insensitivity."),
+ "C03": ("3.C03", "For strings of every code-point class (each control character, DEL, quote, backslash, U+2028/9, astral) as values and keys three levels down, every finite boundary number and nested empty containers, the real compact and pretty renderings must be accepted by the specification's own RFC 8259-strict parser and denote the original (integers exact, float lexemes correctly rounded to the original bits by BigNat!IsRN), the pretty form must be exactly the two-space layout of the compact token sequence, and re-parsing re-encodes to Encode(ToUnsigned(d))."),
  "C04": ("3.C04", "All ordered pairs of a 70-document universe built to contain equal values in different number encodings, 2^53 neighbours, prefixes, length-only and deep differences are compared by the real code in all text/binary combinations and must equal the specification's Cmp; antisymmetry, reflexivity, Cmp=0 <=> value equality and (thorough) transitivity over triples are TLC invariants of the specification, transferred to the code by the conformance of every pair."),
  "C05": ("3.C05", "Every document of the bounded universe x every argument the property quantifies over (indices -1..len+1, present keys, case variants, prefixes, extensions, key paths to depth+1 including kind mismatches) is executed against the real accessors; results must equal the tree definition, every returned sub-value byte-identical to Encode(subtree)."),
  "C06": ("3.C06", "Every document of the bounded universe x all positions/key sets/key paths/new values is executed against the real editors and builders; appended bytes must equal Encode of the tree edit, documented errors must match and leave the buffer untouched."),
+ "C08": ("3.C08", "TLC enumerates ~33k (document, abstract path) cases: navigation sequences over wildcards, three name spellings, 22 index lists (last+-k, ranges, negative, i32 extremes), 170 filters (all operators x operand paths x literals of every kind, literal-left, path-vs-path, root-relative, &&/||/parentheses, exists, nested filters), stand-alone predicates, arithmetic expressions; all-mode data and offsets of the real selector must equal the encodings of spec/Path.tla Eval, evaluation errors must be errors with untouched buffers, never a panic."),
+ "C09": ("3.C09", "TLC renders ~600 syntax trees in 8 spelling styles (white space at every inter-token point, keyword case, bare/quoted names, minimal/maximal string escapes, two float lexeme tables) with spec/PathText.tla; the real parser must return the tree the text was rendered from, its printout must parse back to the same tree when nothing needs quoting, 13 certainly-invalid edits per tree must be errors, byte soups must not panic."),
+ "C10": ("3.C10", "Fault enumeration by TLC: every truncation, bit flip, boundary-byte substitution, inserted and deleted byte at every offset of 33 encodings (thorough: all double faults on 8 documents), plus header-like JSON texts; both decoders must return a value or an error (a panic is a recorded outcome no spec step allows), returned strings and keys must be well-formed UTF-8 (spec/Utf8.tla), proper prefixes must be errors, valid text must decode to the value the spec's strict parser gives."),
+ "C11": ("3.C11", "Every accessor, editor and two-document function is executed on the same abstract documents under all representation vectors over {JSONB, three JSON text spacings/escape styles}; the specification's result does not read the representation, so each variant must equal the same expected value (byte-identical JSONB, same boolean/ordering/option/error). Text arguments are rendered by the harness and re-checked against spec/JsonText.tla RenderText, float lexemes by BigNat!IsRN."),
  "C12": ("3.C12", "All ordered pairs of the pair universe executed against contains; must equal the specification's PostgreSQL-style containment with compare-equality on scalars; reflexivity and agreement with Cmp are TLC invariants."),
  "C13": ("3.C13", "All ordered pairs of the pair universe executed against distinct/intersection/except/overlap; must equal the multiset definitions over identical entries; partition, idempotence and overlap laws are TLC invariants of the specification."),
+ "C14": ("3.C14", "All ordered pairs of the pair universes: the bytewise order of the two real keys must equal the specification's Cmp of the documents (a relation; no key layout is imposed). Two design-level defects are recorded as known findings by a class predicate computed in TLA+ on the deciding pair; anything else is a violation."),
+ "C15": ("3.C15", "Each (document, path) of the C08 universe is run through all four modes of the Selector API, the three convenience functions, exists/path_exists and predicate_match/path_match, into empty and pre-filled buffers; data and offsets of every mode must equal the specification's ModeItems of the all-mode items, predicates must write the one boolean. Mode consistency laws are TLC invariants of spec/Path.tla."),
+ "C16": ("3.C16", "All key paths of <=2 elements over 18 elements (i32 extremes, plain/quoted/empty/escaped/multi-byte names) x 4 spelling styles rendered by spec/PathText.tla must parse to the elements they were rendered from and print back faithfully; 8 certainly-invalid edits per path must be errors; byte soups must not panic."),
+ "C17": ("3.C17", "Every buffer-writing function (editors, set functions, builders, encoder, comparable key, path selection) is called twice by the harness: into an empty buffer and into a buffer holding earlier bytes (and offsets, including a batch where an earlier predicate result has no offset); the validator requires after = before ++ what went into the empty buffer, offsets shifted by the prior length, and nothing appended on a documented error."),
+ "C19": ("3.C19", "For the C03 universe (all string classes, every finite boundary number incl. u64/i64 extremes) the serde_json value built from the bytes and from the tree (logged structurally: u64/i64/f64 bits) must equal the specification's model ToUnsigned(Canon(d)), must match what the spec's strict parser reads from the real text rendering, the object-only variant must agree, and converting back must give a document equal to the original."),
  "C18": ("3.C18", "An 80-number boundary set (every width boundary +-1 of both integer encodings, 2^53/2^63/2^64 neighbourhoods, IEEE class boundaries): every number's encoding, decoding, three views and rendering, every ordered pair's Ord/Eq/PartialOrd, and every tag x length 0..10 for the decoder are executed on the real Number and must equal the exact bit-sequence arithmetic of spec/Num.tla."),
 }
 NOTE = "Trusted: TLC 1.8.0 and the TLA+ specification in /verif/spec (written from README, doc comments and the property text); the harness only builds inputs and records results, and its inputs are re-checked by the specification (a mismatch is a tool error). Bounded universes: see evidence.coverage.bounds."
